@@ -1179,14 +1179,22 @@ func runC14(r *Run) {
 		"any o.m as _, v { v.x == 1 }", "all m as k, _ { k matches `^[a-d]$` }"}
 	elems := []interface{}{map[string]interface{}{"x": 1}, map[string]interface{}{"x": 2}, 5, "s", nil, map[string]interface{}{}, map[string]interface{}{"x": "1"}, []interface{}{1}, map[string]interface{}{"x": 1, "y": 2}}
 	keys := []string{"a", "b", "c", "d", "e", "f", "g", "h"}
+	oddKeys := []string{"k\xfe", "k\xff", "\xff", "\ufffd", "k\xc0", "a", "", "é", "e\u0301", "z"}
 	for i := 0; i < n; i++ {
 		rng = NewRng(mix(r.Seed, strHash("C14"), uint64(i)))
 		sz := 2 + rng.Intn(7)
 		mkdoc := func() interface{} {
 			rr := NewRng(mix(r.Seed, strHash("C14doc"), uint64(i)))
 			m := map[string]interface{}{}
+			ks := keys
+			if i%3 == 1 {
+				ks = oddKeys // keys that differ only in an invalid byte, or only after normalisation
+			}
 			for j := 0; j < sz; j++ {
-				m[keys[j]] = elems[rr.Intn(len(elems))]
+				m[ks[j]] = elems[rr.Intn(len(elems))]
+			}
+			if i%5 == 2 {
+				return map[string]interface{}{"m": &m, "o": map[string]interface{}{"m": &m}} // a pointer to the map as the collection
 			}
 			return map[string]interface{}{"m": m, "o": map[string]interface{}{"m": m}}
 		}
@@ -1220,6 +1228,9 @@ func runC14(r *Run) {
 		fe := pick(rng, []string{"x == 1", "x != 1", "y == 2 or x == 1", "x is not empty"})
 		if flt, err := bexpr.CreateFilter(fe); err == nil {
 			m := d.(map[string]interface{})["m"]
+			if pm, ok := m.(*map[string]interface{}); ok {
+				m = *pm
+			}
 			f0 := filterKept(flt, m)
 			fc := map[string]int{f0: 1}
 			for k := 1; k < reps; k++ {
